@@ -83,9 +83,12 @@ class Model:
         # opts[(cat, scheme, key)] = z3 Int term (present)   ;  ctxopts[(cat, key)] = concrete value
 
     def opt(self, S, cat, key):
-        if cat is not None and (cat, S.name, key) in self.opts:
-            return self.opts[(cat, S.name, key)]
-        return self.opts.get((None, S.name, key))
+        # documented precedence: category+scheme > scheme > category+"all" > "all"
+        for k in ((cat, S.name, key) if cat is not None else None, (None, S.name, key),
+                  (cat, "all", key) if cat is not None else None, (None, "all", key)):
+            if k is not None and k in self.opts:
+                return self.opts[k]
+        return None
 
     def clip(self, S, x):
         x = z3.If(x < S.HMIN, z3.IntVal(S.HMIN), x)
@@ -190,6 +193,11 @@ TEMPLATES = {
            (None, "bcrypt", "default_rounds"), ("admin", "bcrypt", "min_rounds"), ("admin", "bsdi_crypt", "max_rounds")],
           [{}, {"deprecated": ["auto"]}, {"default": "bcrypt", "admin__context__default": "bsdi_crypt"},
            {"deprecated": ["plaintext"], "admin__context__deprecated": ["auto"]}]),
+    "E": (["sha256_crypt", "md5_crypt", "des_crypt"],
+          [(None, "all", "default_rounds"), ("admin", "all", "min_rounds"), ("admin", "all", "default_rounds"), (None, "sha256_crypt", "max_rounds")],
+          [{}, {"deprecated": ["md5_crypt", "des_crypt"], "admin__context__deprecated": ["sha256_crypt"]},
+           {"deprecated": ["des_crypt"], "admin__context__deprecated": ["sha256_crypt", "des_crypt"]},
+           {"admin__context__deprecated": ["sha256_crypt"]}]),
     "D": (["bsdi_crypt", "bcrypt"],
           [(None, "bsdi_crypt", "max_rounds"), (None, "bsdi_crypt", "default_rounds"), ("admin", "bsdi_crypt", "max_rounds"),
            (None, "bcrypt", "default_rounds")],
@@ -211,7 +219,7 @@ def ob_policy(tname, alt, cat, stored):
     for (c, sn, key) in symopts:
         v = ZInt.var("%s_%s_%s" % (c or "base", sn, key))
         opts[(c, sn, key)] = v.e
-        sc = byname[sn]
+        sc = byname[sn] if sn != "all" else [x for x in schemes if x.has_rounds][0]     # "all" options: bounds of the rounds scheme
         hi = (sc.HMAX + 2) if sc.HMAX else (1 << 34)
         if key == "vary_rounds":
             bounds.append(z3.And(v.e >= 0, v.e <= hi))
@@ -442,7 +450,7 @@ def run(tier, seed, t0, only=None):
     import sys
     sys.path.insert(0, runner.REPO)
     obs = []
-    quick_sel = {"A": (0, 2, 4, 5, 6, 7, 8), "B": (0,), "C": (), "D": (0, 1)}
+    quick_sel = {"A": (0, 2, 4, 5, 6, 7, 8), "B": (0,), "C": (), "D": (0, 1), "E": (0, 1, 2, 3)}
     for tname, (names, symopts, alts) in TEMPLATES.items():
         for alt in range(len(alts)):
             if tier == "quick" and alt not in quick_sel[tname]:
